@@ -307,6 +307,64 @@ pub fn c07(run: &mut Run) -> Stats {
             .reduce(Stats::default, Stats::merge);
         st = st.merge(s3);
     }
+    // (c2) every code point of interest in every one-character position of a menu of templates, optimised
+    // and unoptimised: all code points with a case partner in either mode, the neighbours of the UTF-8 /
+    // UTF-16 length boundaries, ASCII, the surrogate block's ends (thorough: all 0..=0x10FFFF)
+    {
+        let mut points: Vec<u32> = Vec::new();
+        if thorough {
+            points.extend(0..=0x10FFFFu32);
+        } else {
+            points.extend(0..=0x100u32);
+            for b in [0x7FFu32, 0x800, 0xD7FF, 0xD800, 0xDBFF, 0xDC00, 0xDFFF, 0xE000, 0xFFFF, 0x10000, 0x10FFFF] {
+                points.extend(b.saturating_sub(2)..=(b + 2).min(0x10FFFF));
+            }
+            for c in 0x100..=0x1FFFFu32 {
+                if (0xD800..=0xDFFF).contains(&c) {
+                    continue;
+                }
+                if crate::fold::class_of(c, true).len() > 1 || crate::fold::class_of(c, false).len() > 1 {
+                    points.push(c);
+                }
+            }
+            points.sort();
+            points.dedup();
+        }
+        // 'C' marks the position of the code point
+        let templates: Vec<Vec<u32>> = ["C", "[C]", "[^C]", "[C-C]", "[\\0-C]", "[\\x7c-C]", "[C-\u{10FFFF}]", "[aC]", "[\\q{Cx}]", "[\\q{xC|C}]", "[\\q{C}&&C]", "[a--C]", "(C)\\1", "C{2}", "(?<=C)", "\\C", "[\\C]", "(?<C>a)", "(?i:C)", "Cx|Cy"]
+            .iter()
+            .map(|t| t.chars().map(|ch| ch as u32).collect())
+            .collect();
+        let known = run.known.clone();
+        let npoints = points.len();
+        let s4 = points
+            .par_iter()
+            .fold(Stats::default, |mut st, &c| {
+                for t in &templates {
+                    let pat: Vec<u32> = t.iter().map(|&x| if x == 'C' as u32 { c } else { x }).collect();
+                    for fs in FLAGSETS {
+                        for no_opt in [false, true] {
+                            st.add("evaluations", 1);
+                            st.add("validated", 1);
+                            st.add("code_point_templates", 1);
+                            match subject::compile(&pat, Flags::parse(fs), no_opt) {
+                                CompileOutcome::Ok(_) => st.add("nontrivial", 1),
+                                CompileOutcome::Err(_) => {}
+                                CompileOutcome::Panic(m) => {
+                                    let where_ = m.rsplit(" at ").next().unwrap_or("").to_string();
+                                    let case = J::obj().set("kind", J::s("compile")).set("pattern", J::s(&print::show(&pat))).set("pattern_cps", J::cps(&pat)).set("flags", J::s(fs)).set("no_opt", J::Bool(no_opt)).set("what", J::s("panic during compilation")).set("got", J::s(&m));
+                                    st.violation(&known, "C07", &format!("panic during compilation at {} [code point in template]", where_), pat.len(), case);
+                                }
+                            }
+                        }
+                    }
+                }
+                st
+            })
+            .reduce(Stats::default, Stats::merge);
+        run.extra.push(("code_points_in_templates".into(), J::u(npoints as u64)));
+        st = st.merge(s4);
+    }
     // size-parameterised shapes, each in a child process
     let sizes: Vec<usize> = if thorough { vec![1, 2, 10, 100, 255, 256, 257, 1000, 10_000, 65_535, 65_536, 100_000, 1_000_000] } else { vec![1, 2, 10, 100, 255, 256, 257, 1000, 10_000, 65_535, 65_536] };
     let mut jobs: Vec<(&str, usize, &str, bool)> = Vec::new();
@@ -375,7 +433,7 @@ pub fn c07(run: &mut Run) -> Stats {
         st.sample(|| t);
     }
     run.rule = format!(
-        "(a) every string over the {}-token alphabet {:?} of length <= {} and every raw code point string over {{0, (, \\, U+D800, U+DFFF, U+10FFFF, a, {{, [, u, }}}} of length <= {} x flag sets {:?}: from_unicode must return Ok or Err (catch_unwind; a watchdog reports any compile > 10 s); (c) every prefix and suffix of every C08 seed pattern, and every prefix followed by each of 15 cut-off construct openings (\\ \\u \\x \\c \\k< \\p{{ \\q{{ (? (?< [ [^ {{ {{1, \\u{{ \\ud83d\\u), x the same flag sets; (b) {} size-parameterised shapes x sizes {:?} x {{\"\",u,v}} x {{main thread, spawned 2 MiB thread}}, each in a child process (8 MiB stack, 6 GiB address space, {} s wall): exit status 0 with Ok/Err; non-trivial = the input compiles",
+        "(a) every string over the {}-token alphabet {:?} of length <= {} and every raw code point string over {{0, (, \\, U+D800, U+DFFF, U+10FFFF, a, {{, [, u, }}}} of length <= {} x flag sets {:?}: from_unicode must return Ok or Err (catch_unwind; a watchdog reports any compile > 10 s); (c) every prefix and suffix of every C08 seed pattern, and every prefix followed by each of 15 cut-off construct openings (\\ \\u \\x \\c \\k< \\p{{ \\q{{ (? (?< [ [^ {{ {{1, \\u{{ \\ud83d\\u), x the same flag sets; (c2) every code point of interest (all with a case partner in either mode, encoding-length boundary neighbours, 0..=U+0100, surrogate block ends; thorough: all of 0..=0x10FFFF) substituted into 20 templates (atom, class member, range end, \\q string, set operand, backreference target, quantified, lookbehind, escaped, group name, modifier body, alternation), x the same flag sets x {{optimised, no_opt}}; (b) {} size-parameterised shapes x sizes {:?} x {{\"\",u,v}} x {{main thread, spawned 2 MiB thread}}, each in a child process (8 MiB stack, 6 GiB address space, {} s wall): exit status 0 with Ok/Err; non-trivial = the input compiles",
         toks.len(),
         TOKENS,
         n_tok,
